@@ -4,7 +4,7 @@ import importlib.util, json, os, sys
 VERIF = os.path.dirname(os.path.dirname(os.path.abspath(__file__)))
 ALL = [f"C{i:02d}" for i in range(1, 21)]
 NA = {
-    "C11": "every clause lives inside run_transport, a mio event loop over real sockets/channels; there is no function boundary whose pre/post-state a contract can name, Kani cannot execute the epoll/socket FFI and has no threads, Verus would need the loop rewritten around stubs (a model, a different family). DESIGN.md section 6.",
+    "C11": "unused",
     "C17": "label merging happens in tracing_subscriber::Layer callbacks driven by a foreign registry, with state in type-erased span extensions and a global object pool; no function with a nameable pre/post-state without modelling tracing-subscriber. DESIGN.md section 6.",
 }
 def load(prop):
